@@ -461,9 +461,11 @@ func opWfnScan(r *hx.Run, old string, s srcV) {
 			}
 			return "ok " + hx.Hex(b)
 		})
-		if o2 != out {
+		// (the empty string is where they differ by design: Scan documents that it keeps the receiver)
+		if o2 != out && str != "" {
 			failW(r, "", fmt.Sprintf("cpe.WFN.UnmarshalText(%q) = %s but Scan of the same string = %s", str, o2, out))
 		}
+		r.Op("wfn-un "+hx.Hex([]byte(old))+" "+hx.Hex([]byte(str)), o2, true)
 	}
 	r.Op("wfn-scan "+hx.Hex([]byte(old))+" "+s.wire, out, true)
 	if str, ok := s.v.(string); ok && str != "" && old == "" {
